@@ -27,6 +27,10 @@ RULE = ("suite A: every history of exactly L events over {post p v (p registered
         "histories containing a takeover run (quick: two out of three, thorough: every second one) on a device built by the real pyatv.connect() with the takeover "
         "performed through the Core that connect() handed to that protocol (core.takeover), or on a hand-assembled "
         "FacadeAppleTV with facade.takeover(protocol, ...); histories without takeover alternate between the two builds; "
+        "suite M (first chunk, with the corpus): 2-3 device objects alive in one process, built like a single one, events "
+        "interleaved, each device compared with the single-device model on its own events (Lean: devices_independent); "
+        "chunk-wise evaluation that stops generating once a chunk produced an oracle failure; pyatv loggers at DEBUG "
+        "(runner default) except every second chunk of suites A/B at WARNING; "
         "suite F: updaters whose own `active` flag turns off/on by itself (independently of start/stop), exhaustive "
         "histories for one and two protocols incl. takeover; suite D: for every Playing domain (each constructor field varied alone over three values, once without and once "
         "with an explicit hash shared by the three states; hash alone; colliding calculated hashes; unset/empty; mixed) "
@@ -972,7 +976,7 @@ def run(ctx, only=None):
         return
     # fixed witnesses first (they are the Lean examples / the undrained-stop theorem)
     evaluate(ctx, env, WITNESSES, "witness")
-    if ctx.failures or ctx.disagreements:
+    if ctx.failures:
         ctx.notes["stopped_early"] = "a fixed witness failed; no further cases generated"
         return
     res = execute(env, [UNDRAINED])[0]
@@ -1020,7 +1024,7 @@ def corpus_cases():
 
 def _drive(ctx, env, stages, budget_s):
     """Chunk-wise: run a chunk on the real code, compare with the model, apply the oracle; stop
-    generating as soon as a chunk produced a failure or a disagreement (a broken tree gets its
+    generating as soon as a chunk produced an oracle failure (a broken tree gets its
     verdict in about the normal wall time even when it makes every further case slower), or when
     the wall-time budget is exhausted (noted in the evidence, never a verdict)."""
     import time
@@ -1029,7 +1033,7 @@ def _drive(ctx, env, stages, budget_s):
     for name, gen, size in stages:
         for k, batch in enumerate(chunks(gen, size)):
             evaluate(ctx, env, batch, name, quiet_log=(name in ("A", "B") and k % 2 == 1))
-            if ctx.failures or ctx.disagreements:
+            if ctx.failures:       # (a mere model/implementation disagreement: keep looking for a failing input)
                 ctx.notes["stopped_early"] = ("suite %s chunk %d produced a failure; no further cases generated "
                                               "(%d evaluated)" % (name, k, ctx.evaluations))
                 return False
